@@ -611,3 +611,116 @@ def run(ctx):
                           what="%s of %s: implementation %s, declared semantics %s" % (b[0], b[1], b[2], b[3]))
         if not bad and len(ctx.samples) < 3 and nontrivial(spec):
             ctx.sample({"model": model_text(spec), "bounds": obs.get("bounds"), "history": obs.get("history"), "t0": obs.get("t0")})
+
+
+# ---- ensembles: start attributes are resolved with each member's own parameter values -------------------------
+def run_members(spec):
+    import logging
+    import warnings
+    warnings.filterwarnings("ignore")
+    logging.disable(logging.CRITICAL)
+    import numpy as np
+    from rtctools.optimization.collocated_integrated_optimization_problem import CollocatedIntegratedOptimizationProblem
+    from rtctools.optimization.modelica_mixin import ModelicaMixin
+    base = tempfile.mkdtemp(prefix="verif_c14_")
+    try:
+        mdl = os.path.join(base, "model")
+        os.makedirs(mdl)
+        with open(os.path.join(mdl, spec["name"] + ".mo"), "w") as fh:
+            fh.write(model_text(spec))
+        E = len(spec["member_params"])
+
+        class P(ModelicaMixin, CollocatedIntegratedOptimizationProblem):
+            def compiler_options(self):
+                o = super().compiler_options()
+                o["cache"] = False
+                return o
+
+            def times(self, variable=None):
+                return np.array([0.0, 1.0, 2.0])
+
+            @property
+            def ensemble_size(self):
+                return E
+
+            def parameters(self, ensemble_member):
+                p = super().parameters(ensemble_member)
+                for k, v in spec["member_params"][ensemble_member].items():
+                    p[k] = float(Fraction(v))
+                return p
+
+        p = P(model_folder=mdl, model_name=spec["name"])
+        names = [v["name"] for v in spec["states"] + spec["algebraics"]]
+        out = {"history": [], "seed": []}
+        for m in range(E):
+            h = p.history(m)
+            out["history"].append({n: [float(x) for x in np.atleast_1d(h[n].values)] for n in names if n in h})
+            sd = p.seed(m)
+            out["seed"].append({n: [float(x) for x in np.atleast_1d(sd[n].values)] for n in names if n in sd})
+        return out
+    except Exception as e:  # noqa: BLE001
+        import traceback
+        return {"error": "%s: %s | %s" % (type(e).__name__, str(e)[:200], traceback.format_exc()[-400:])}
+    finally:
+        shutil.rmtree(base, ignore_errors=True)
+
+
+def member_cases(ctx):
+    rng = ctx.rng
+    specs = []
+    for i in range(ctx.n(8, 200)):
+        s = gen_opt(rng, 5000 + i)
+        s["inputs"] = [u for u in s["inputs"] if u["type"] == "Real"][:1] or [{"name": "u0", "type": "Real"}]
+        s["equations"] = [[["v", "der(%s)" % st["name"]], ["-", ["v", s["inputs"][0]["name"]], ["v", st["name"]]]] for st in s["states"]] + \
+                         [[["v", a["name"]], ["+", ["v", s["states"][0]["name"]], ["c", str(k + 1)]]] for k, a in enumerate(s["algebraics"])]
+        s.pop("alias", None)
+        pars = [p["name"] for p in s["parameters"]]
+        # make sure a fixed and a free start depend on a parameter
+        s["states"][0].update({"start": ["*", ["c", "3/2"], ["v", pars[0]]], "fixed": True})
+        if s["algebraics"]:
+            s["algebraics"][0].update({"start": ["+", ["v", pars[-1]], ["c", "1/2"]], "fixed": False})
+        E = rng.choice([2, 3])
+        s["member_params"] = [{p: str(Fraction(rng.randint(-8, 8), 2)) for p in pars if rng.random() < 0.7} for _ in range(E)]
+        specs.append(s)
+    with ProcessPoolExecutor(max_workers=10) as ex:
+        results = list(ex.map(run_members, specs))
+    terms, meta = [], []
+    for s, res in zip(specs, results):
+        if "error" in res:
+            ctx.violation("modelica/member-exception", {"spec": s, "error": res["error"]}, no_input="rtctools" not in res["error"],
+                          what="an ensemble model could not be loaded: %s" % res["error"][:160])
+            continue
+        pars = [p["name"] for p in s["parameters"]]
+        idx = {p: i for i, p in enumerate(pars)}
+        for m, mp in enumerate(s["member_params"]):
+            par_term = glist(pars, lambda p: gq(Fraction(mp[p]) if p in mp else Fraction(next(x["value"] for x in s["parameters"] if x["name"] == p))))
+            for kind, group in (("KState", s["states"]), ("KAlg", s["algebraics"])):
+                for v in group:
+                    terms.append("ser_oq (history_of %s %s) ++ ser_oq (seed_of %s %s)" % (par_term, mvar_term(s, v, kind, idx), par_term, mvar_term(s, v, kind, idx)))
+                    meta.append((s, res, m, v["name"]))
+    vals = core.eval_terms(ID + "m", ["Xq", "Expr", "Modelica"], terms, shard=200) if terms else []
+    seen = set()
+    for (s, res, m, nm), v in zip(meta, vals):
+        if id(s) not in seen:
+            seen.add(id(s))
+            ctx.case_done(core.fingerprint(["members", len(s["member_params"]), len(s["states"]), len(s["algebraics"])]), True)
+            ctx.count("member_models")
+        it = It(v)
+        h, sd = it.oq(), it.oq()
+        gh = res["history"][m].get(nm)
+        gs = res["seed"][m].get(nm)
+        if (gh is None) != (h is None) or (h is not None and not same(gh[-1], h)):
+            ctx.violation("modelica/member-history", {"spec": s, "model": model_text(s), "member": m, "variable": nm, "impl": gh, "expected": str(h)},
+                          what="member %d: initial condition of %s is %s, its own parameter values give %s" % (m, nm, gh, h))
+        if not same(0.0 if gs is None else gs[0], Fraction(0) if sd is None else sd):
+            ctx.violation("modelica/member-seed", {"spec": s, "model": model_text(s), "member": m, "variable": nm, "impl": gs, "expected": str(sd)},
+                          what="member %d: seed of %s is %s, its own parameter values give %s" % (m, nm, gs, sd))
+
+
+_run_core = run
+
+
+def run(ctx):  # noqa: F811
+    _run_core(ctx)
+    if not os.environ.get("VERIF_REPLAY"):
+        member_cases(ctx)
